@@ -15,7 +15,8 @@
 namespace sim {
 
 struct SimMemoryManager : public xercesc::MemoryManager {
-    struct Block { size_t size; uint64_t serial; bool live; };
+    struct Block { size_t size; uint64_t serial; bool live; void* bt[10]; int btn; };
+    static bool& recordSites() { static bool v = false; return v; }   // --trace: keep the allocation backtrace of every block
     std::unordered_map<void*, Block> table;      // includes tombstones (live=false) until address is handed out again
     uint64_t serial = 0;          // allocations so far (all ops)
     uint64_t opAllocs = 0;        // allocations since beginOp()
@@ -56,7 +57,7 @@ struct SimMemoryManager : public xercesc::MemoryManager {
         }
         if (!p) p = std::malloc(reuse ? k : (size ? size : 1));
         if (!p) throw xercesc::OutOfMemoryException();
-        table[p] = Block{ size, serial, true };
+        { Block b; b.size = size; b.serial = serial; b.live = true; b.btn = 0; if (recordSites()) b.btn = backtrace(b.bt, 10); table[p] = b; }
         liveBytes += size; ++liveBlocks; if (liveBytes > peakBytes) peakBytes = liveBytes;
         return p;
     }
@@ -72,6 +73,12 @@ struct SimMemoryManager : public xercesc::MemoryManager {
     }
     xercesc::MemoryManager* getExceptionMemoryManager() override { return xercesc::XMLPlatformUtils::fgMemoryManager; }
 
+    // allocation sites (raw return addresses) of blocks still live; only with recordSites()
+    std::vector<std::vector<void*>> liveSites(size_t max = 5) const {
+        std::vector<std::vector<void*>> r;
+        for (auto& kv : table) if (kv.second.live && kv.second.btn > 0 && r.size() < max) r.emplace_back(kv.second.bt + 1, kv.second.bt + kv.second.btn);
+        return r;
+    }
     // documented recovery: discard everything still outstanding
     uint64_t discardAll() {
         uint64_t n = 0;
